@@ -577,8 +577,23 @@ def _tailify(stmts, ret):
         out.append(ast.copy_location(ast.Try(body=s.body, handlers=hs, orelse=oe, finalbody=[]), s))
         return out
       return None
+    if isinstance(s, (ast.For, ast.While)) and _has_return([s]):
+      # a search loop:  for x in xs: ... return v ...   followed by rest
+      #   ==  for x in xs: ... ret = v; break ...  else: rest        (exact when the loop has no break / else of its own
+      #   and the returns are not inside a nested loop)
+      if s.orelse or _own_breaks(s) or _return_in_nested_loop(s):
+        return None
+      body = _returns_to_break(s.body, ret)
+      r = _tailify(rest, ret)
+      if r is None:
+        return None
+      new = copy.copy(s)
+      new.body = body
+      new.orelse = r
+      out.append(new)
+      return out
     if _has_return([s]):
-      return None       # return inside a loop / with: not a tail form
+      return None       # return inside a with that falls through, ...: not a tail form
     out.append(s)
   out.append(ast.Assign(targets=[ast.Name(id=ret, ctx=ast.Store())], value=ast.Constant(value=None)))
   return out
@@ -613,6 +628,50 @@ def _drop_result(stmts, tmp):
             nb = []
           setattr(x, field, nb)
   return [x for x in out if not isinstance(x, ast.Pass)] or []
+
+
+def _own_breaks(loop):
+  for st in loop.body:
+    for x in walk_no_nested(st):
+      if isinstance(x, ast.Break):
+        p = x
+        # belongs to `loop` unless an inner loop encloses it
+        inner = False
+        for y in walk_no_nested(loop, include_self=False):
+          if isinstance(y, (ast.For, ast.While)) and any(z is x for z in ast.walk(y)):
+            inner = True
+        if not inner:
+          return True
+  return False
+
+
+def _return_in_nested_loop(loop):
+  for y in walk_no_nested(loop, include_self=False):
+    if isinstance(y, (ast.For, ast.While)) and any(isinstance(z, ast.Return) for z in walk_no_nested(y)):
+      return True
+  return False
+
+
+def _returns_to_break(stmts, ret):
+  class R(ast.NodeTransformer):
+    def visit_Return(self, node):
+      val = node.value if node.value is not None else ast.Constant(value=None)
+      return [ast.copy_location(ast.Assign(targets=[ast.Name(id=ret, ctx=ast.Store())], value=val), node),
+              ast.copy_location(ast.Break(), node)]
+
+    def visit_FunctionDef(self, node):
+      return node
+
+    def visit_Lambda(self, node):
+      return node
+  out = []
+  for st in stmts:
+    r = R().visit(st)
+    if isinstance(r, list):
+      out.extend(r)
+    else:
+      out.append(r)
+  return out
 
 
 def _count_stmts(stmts):
